@@ -1,6 +1,6 @@
 SPECIFICATION Spec
 CONSTANTS NW = 2  NR = 2  MaxW = 2  MaxI = 2  MaxJ = 1  JunkLens <- JL
-  UseWMu = TRUE  UseRMu = TRUE  UseLk = TRUE  DeobfInLock = TRUE  JunkRetry = TRUE  UnlockOnRetry = TRUE
+  UseWMu = TRUE  UseRMu = TRUE  UseLk = TRUE  DeobfInLock = TRUE  JunkRetry = TRUE  UnlockOnRetry = TRUE  KeyOwned = TRUE
 INVARIANT NoViolation
 INVARIANT MutexOk
 VIEW View
